@@ -11,6 +11,7 @@ CONTRACT_MODULES = [
     'contracts.loader',
     'contracts.cmdline',
     'contracts.logger',
+    'contracts.schema',
 ]
 
 CFG = 'cfgparser.ZConfigParser.'
@@ -51,11 +52,18 @@ INFO_BUILD = ['info.BaseInfo.__init__', 'info.BaseKeyInfo.__init__', 'info.BaseK
               'info.SchemaType.addtype', 'info.SchemaType.createSectionType', 'info.SchemaType.deriveSectionType',
               'info.SchemaType.addComponent', 'info.SchemaType.hasComponent', 'info.createDerivedSchema']
 
+SP = 'schema.BaseParser.'
+SCHEMA_FNS = [SP + n for n in ('basic_key', 'identifier', 'get_required', 'get_ordinality', 'get_handler', 'get_name_info',
+                               'get_key_info', 'get_sectiontype', 'start_key', 'end_key', 'start_multikey',
+                               'start_section', 'end_section', 'start_multisection', 'end_multisection',
+                               'start_abstracttype', 'end_abstracttype', 'start_sectiontype', 'end_sectiontype',
+                               'push_prefix', 'pop_prefix', 'get_classname', 'loadComponent')] + ['schema.SchemaParser.extendSchema']
+
 PROPS = {
     'C01': {'functions': INFO_MATCH + MATCHER + LOADER_CFG, 'standin': True},
     'C02': {'functions': ['info.ValueInfo.convert', 'matcher.SchemaMatcher.__init__', 'matcher.SchemaMatcher.finish'] + MATCHER +
             ['info.BaseKeyInfo.prepare_raw_defaults', 'info.KeyInfo.computedefault', 'info.MultiKeyInfo.computedefault',
-             'info.SchemaType.deriveSectionType'],
+             'info.SchemaType.deriveSectionType', SP + 'get_name_info', SP + 'get_key_info'],
             'standin': True},
     'C03': {'functions': CFG_ALL,
             'rx': ['rx:cfgparser._keyvalue_rx', 'rx:cfgparser._section_start_rx'], 'standin': True},
@@ -84,14 +92,16 @@ PROPS = {
         'bind': ['bind:datatypes'],
         'standin': True,
     },
-    'C10': {'functions': INFO_BUILD, 'standin': True},
-    'C11': {'functions': INFO_BUILD, 'standin': True},
+    'C10': {'functions': INFO_BUILD + SCHEMA_FNS, 'standin': True},
+    'C11': {'functions': INFO_BUILD + SCHEMA_FNS, 'standin': True},
     'C12': {'functions': ['info.SectionType.getsectioninfo', 'info.AbstractType.getsubtype',
                           'info.AbstractType.hassubtype', 'info.AbstractType.isabstract',
                           'info.SectionType.isabstract', 'info.SectionType.gettype', 'loader.ConfigLoader.startSection',
                           CFG + 'handle_import', 'info.createDerivedSchema', 'info.AbstractType.__init__',
                           'info.AbstractType.addsubtype', 'info.SchemaType.addtype', 'info.SchemaType.createSectionType',
-                          'info.SchemaType.addComponent', 'info.SchemaType.hasComponent'], 'standin': True},
+                          'info.SchemaType.addComponent', 'info.SchemaType.hasComponent',
+                          SP + 'start_sectiontype', SP + 'start_abstracttype', 'cmdline.OptionBag.get_section_info'],
+            'standin': True},
     # frame and ownership obligations of every function of a load that touches schema objects: the
     # modifies clauses name only matcher / loader state, results are fresh containers
     'C13': {'functions': INFO_MATCH + MATCHER + LOADER_CFG + ['info.createDerivedSchema'], 'standin': True},
@@ -105,7 +115,7 @@ PROPS = {
                           'matcher.SchemaMatcher.__init__', 'matcher.SchemaMatcher.finish', 'loader.ConfigLoader.loadResource'],
             'bind': ['bind:handlers'], 'standin': True},
     'C17': {'functions': [], 'standin': True},
-    'C18': {'functions': ['url.urlnormalize', 'url.urldefrag', 'url.urljoin', 'loader.BaseLoader.isPath', 'loader.BaseLoader.normalizeURL', 'loader._url_from_file',
+    'C18': {'functions': ['schema.SchemaParser.extendSchema', SP + 'loadComponent', 'url.urlnormalize', 'url.urldefrag', 'url.urljoin', 'loader.BaseLoader.isPath', 'loader.BaseLoader.normalizeURL', 'loader._url_from_file',
                           'loader.BaseLoader._raise_open_error', CFG + '__init__', CFG + 'handle_include'],
             'rx': ['rx:loader._pathsep_rx'], 'standin': True},
     'C19': {'functions': ['loader.Resource.__init__', 'loader.Resource.close', 'loader.Resource.__enter__',
@@ -113,7 +123,8 @@ PROPS = {
                           'loader.BaseLoader.openResource', 'loader.BaseLoader._raise_open_error',
                           'loader.BaseLoader.loadURL', 'loader.BaseLoader.loadFile', 'loader.ConfigLoader.loadResource',
                           'loader.ConfigLoader.includeConfiguration', 'loader.ConfigLoader._parse_resource',
-                          CFG + 'parse', CFG + 'handle_include', CFG + 'handle_import', CFG + 'handle_directive'],
+                          CFG + 'parse', CFG + 'handle_include', CFG + 'handle_import', CFG + 'handle_directive',
+                          'schema.SchemaParser.extendSchema', SP + 'loadComponent'],
             'standin': True},
     'C20': {'functions': ['components.logger.datatypes.logging_level', 'components.logger.factory.Factory.__init__',
                           'components.logger.factory.Factory.__call__',
